@@ -643,8 +643,10 @@ def run_cli(stim, scratch, rid):
                 p.write_text(yaml.dump({sec: o}))
                 files.append((d, p))
         args = []
+        # a file may be named more than once (a site file before AND after a board file): every mention is a source at its position
+        again = [files[0]] if cli.get("again") and len(files) >= 2 else []
         if files:
-            args += ["--configuration"] + [str(p) for _, p in files]
+            args += ["--configuration"] + [str(p) for _, p in files] + [os.path.join(str(p.parent), ".", p.name) for _, p in again]
         opts = objs[cli["options_doc"]]
         for k, flag in FLAGS.items():
             if k in opts and not isinstance(opts[k], DV):
@@ -667,7 +669,7 @@ def run_cli(stim, scratch, rid):
         s0["cfg"] = [[1, it.j(project(builtin, keys, DV, probe))]]
         rec["steps"].append(s0)
         events = []
-        for d, p in files:
+        for d, p in files + again:
             clashes(builtin, objs[d], events)
             rec["steps"].append(step("upd", d=d + 1))
         rec["steps"].append(step("set", d=cli["options_doc"] + 1, key=it.key("options")))
@@ -1113,6 +1115,8 @@ class Gen:
         heap.append(o)
         docs.append({"root": {"r": len(heap) - 1}, "via": "api"})
         cli = {"options_doc": len(docs) - 1, "observe": observe, "subprocess": subprocess_}
+        if sum(1 for d in docs if d.get("via") == "file") >= 2 and r.random() < 0.5:
+            cli["again"] = True
         if r.random() < 0.3:
             docs.append({"root": {"x": r.choice([".h", ".hpp", ".foo"])}, "via": "api"})
             cli["extension_doc"] = len(docs) - 1
